@@ -8,7 +8,7 @@ Import ListNotations.
 Open Scope list_scope.
 
 Ltac start :=
-  unfold FLs; intros k lbl G rho th st t st' A e ae Hinv Hck Hub Hib Hsh Hpf Hlift He out r Hrun Hg;
+  unfold FLs; intros k lbl G rho th st t st' A e ae Hinv Hck Hub Hib Hnc Hsh Hpf Hlift He out r Hrun Hg;
   destruct k as [|k]; [discriminate Hsh|]; rewrite shrink_stmt_S in Hsh.
 Ltac invsh Hsh := match goal with Hrun : _ = ?r, Hg : good ?r |- _ => revert Hrun Hg; inv Hsh; intros Hrun Hg end.
 Ltac occ := cbn [occurs occ_term]; tauto.
@@ -66,7 +66,7 @@ Proof.
     - cbn [map lookups cbvar]. rewrite Hra. unfold lookup_id. rewrite Hla. reflexivity.
     - intros b1 [<-|[]]. cbn [cbvar]. rewrite Hra. exact HinA.
     - reflexivity. }
-  destruct (IH n ltac:(lia) s' k lbl _ _ th st t st' A _ ae Hinv' Hcs Hub Hib Hsh Hpf Hlift He' _ _ Hrun' Hg) as [m Hm].
+  destruct (IH n ltac:(lia) s' k lbl _ _ th st t st' A _ ae Hinv' Hcs Hub Hib (nc_cut_mu_l _ _ _ _ _ _ _ Hnc) Hsh Hpf Hlift He' _ _ Hrun' Hg) as [m Hm].
   exists m. exact Hm.
 Qed.
 
@@ -106,7 +106,7 @@ Proof.
     - cbn [map lookups cbvar]. rewrite Hra. unfold lookup_id. rewrite Hla. reflexivity.
     - intros b1 [<-|[]]. cbn [cbvar]. rewrite Hra. exact HinA.
     - reflexivity. }
-  destruct (IH n ltac:(lia) s' k lbl _ _ th st t st' A _ ae Hinv' Hcs Hub Hib Hsh Hpf Hlift He' _ _ Hrun Hg) as [m Hm].
+  destruct (IH n ltac:(lia) s' k lbl _ _ th st t st' A _ ae Hinv' Hcs Hub Hib (nc_cut_mu_r _ _ _ _ _ _ _ Hnc) Hsh Hpf Hlift He' _ _ Hrun Hg) as [m Hm].
   exists m. exact Hm.
 Qed.
 
@@ -149,7 +149,7 @@ Proof.
       - intros b0 _ Hb. split; [occ | reflexivity].
       - rewrite (inv_self p _ _ _ _ _ Hinv Hux Hix). reflexivity.
       - constructor. }
-    destruct (IH j ltac:(lia) sc k lbl _ rho th st body st1 _ _ _ (inv_push p _ _ _ _ _ CPrd CI64 Hinv Hux Hix) Hcsc Hubc Hibc E1 Hpb Hlift1 He' _ _ Hr' Hg') as [m Hm].
+    destruct (IH j ltac:(lia) sc k lbl _ rho th st body st1 _ _ _ (inv_push p _ _ _ _ _ CPrd CI64 Hinv Hux Hix) Hcsc Hubc Hibc (nc_cut_mu_r _ _ _ _ _ _ _ Hnc) E1 Hpb Hlift1 He' _ _ Hr' Hg') as [m Hm].
     exists m. exact Hm. }
   assert (He' : erel p q n (fun y => occurs y sp) (fun y => th (rho y)) (idn a :: A) (mkcb a CCns CI64 :: G)
                   ((a, BK kv) :: e) ((a, VClo cont_name cls ae) :: ae)).
@@ -159,7 +159,7 @@ Proof.
     - intros b0 _ Hb. split; [occ | reflexivity].
     - rewrite (inv_self p _ _ _ _ _ Hinv Hua Hia). reflexivity.
     - exact Hclo. }
-  destruct (IH n ltac:(lia) sp k lbl _ rho th st1 next st' _ _ _ (inv_push p _ _ _ _ _ CCns CI64 Hinv1 Hua Hia) Hcsp Hubp Hibp E2 Hpn Hlift He' _ _ Hrun Hg) as [m Hm].
+  destruct (IH n ltac:(lia) sp k lbl _ rho th st1 next st' _ _ _ (inv_push p _ _ _ _ _ CCns CI64 Hinv1 Hua Hia) Hcsp Hubp Hibp (nc_cut_mu_l _ _ _ _ _ _ _ Hnc) E2 Hpn Hlift He' _ _ Hrun Hg) as [m Hm].
   exists (S m). rewrite arn_create. cbn [exec_named cont_ty ty_name shrink_identifier]. exact Hm.
 Qed.
 End CasesB.
